@@ -678,7 +678,24 @@ def bounded_companion(run, pid, script, args=None, name_fn=None, what="", per_na
     return d
 
 
+# how each property module names the failures of its companion (the names the known findings are written against); used by the thorough tier
+COMPANION_NAMES = {
+    "poly_diff": lambda f: f"poly_diff:{f['face']}:{f.get('format') or f.get('kind') or ''}",
+    "inject_diff": lambda f: f"inject_diff:{f['mode'].split('(')[0]}:{f.get('loader', '')}",
+    "nested_diff": lambda f: f"nested_diff:{f['through']}:{f['payload']}",
+    "value_diff": lambda f: f"value_diff:{f['kind']}:{f['program']}" + (f":{f['note']}" if f.get("note") else ""),
+    "const_diff": lambda f: f"const_diff:{f['kind']}:{f.get('note') or f['through']}",
+    "floor_diff": lambda f: "floor_diff:" + f["label"] + (":" + f["program"].split("/")[0].rsplit(".", 1)[0] if "py2" in f["label"] else ""),
+    "load_diff": lambda f: f"load_diff:{f['kind']}:{f['way'].split('(')[0]}:{f['delivery']}",
+}
+
+
 def failure_name(stem, f):
+    if stem in COMPANION_NAMES:
+        try:
+            return COMPANION_NAMES[stem](f)
+        except Exception:  # noqa
+            pass
     for k in ("how", "label", "what", "through", "entry_point", "kind", "program"):
         if f.get(k):
             extra = f":{f.get('note') or f.get('payload')}" if (f.get("note") or f.get("payload")) else ""
@@ -712,7 +729,7 @@ def thorough_extras(run):
             for f in d.get("failures", []) or []:
                 f = dict(f)
                 f["name"] = failure_name(stem, f)
-                k = next((k for k in known if re.search(k["obligation"], f["name"]) or (k.get("companion") and re.search(k["companion"], f["name"] + " " + str(f.get("source", ""))))), None)
+                k = next((k for k in known if re.search(k["obligation"], f["name"]) or (k.get("companion") and (re.search(k["companion"], f["name"]) or (f.get("source") and re.search(k["companion"], str(f["source"])))))), None)
                 if k is not None:
                     if k["what"] not in hits:
                         hits.append(k["what"])
